@@ -15,7 +15,12 @@
 //	outlive <chunk> <seed>           the client writes <chunk> bytes every 40 ms until the tunnel is older than
 //	                                 the proxy's timeout (never idle): are they all forwarded? (open finding
 //	                                 c04:active-tunnel-cut-at-timeout; the model is told where the cut fell)
-//	unreach <route> <lst>            CONNECT to a port nobody listens on
+//	unreach <route> <lst> [<kind> [near|far]]
+//	                                 CONNECT whose dial fails with the given kind of error: refused (default) |
+//	                                 timeout (net.Error, Timeout() true) | eof | dns | ctx (context.DeadlineExceeded)
+//	                                 | other; near = the dial of the proxy under test fails (to the target, or to the
+//	                                 downstream proxy on route via), far = the downstream proxy's dial fails (via only;
+//	                                 default on via). May be repeated: the connection must keep serving.
 //	send <nC> <nT> <chunkseed>       client writes nC and target writes nT further bytes, concurrently; waits
 //	                                 until both have been received (quiescence)
 //	push <nC> <nT> <chunkseed>       the same writes, but the op returns as soon as the writes have returned:
@@ -35,9 +40,11 @@ package c04
 
 import (
 	"bufio"
+	"context"
 	"crypto/tls"
 	"errors"
 	"fmt"
+	"io"
 	"net"
 	"net/url"
 	"os"
@@ -286,8 +293,39 @@ func serverTLS() *tls.Config {
 	return tlsCfg
 }
 
+// timeoutErr is a dial error of the timeout class (what a black-holed address gives after the dial timeout).
+type timeoutErr struct{}
+
+func (timeoutErr) Error() string   { return "i/o timeout" }
+func (timeoutErr) Timeout() bool   { return true }
+func (timeoutErr) Temporary() bool { return true }
+
+// dialFault synthesises the error a dial of kind `kind` returns (a port freed a moment ago may be
+// re-allocated by another process, a black hole is not available on loopback).
+func dialFault(kind, n, a string) error {
+	switch kind {
+	case "refused":
+		return &net.OpError{Op: "dial", Net: n, Err: syscall.ECONNREFUSED}
+	case "timeout":
+		return &net.OpError{Op: "dial", Net: n, Err: timeoutErr{}}
+	case "eof":
+		return io.EOF
+	case "dns":
+		host, _, _ := net.SplitHostPort(a)
+		return &net.OpError{Op: "dial", Net: n, Err: &net.DNSError{Err: "no such host", Name: host, IsNotFound: true}}
+	case "ctx":
+		return context.DeadlineExceeded
+	}
+	return errors.New("dial failed")
+}
+
+var dialKinds = []string{"refused", "timeout", "eof", "dns", "ctx", "other"}
+
 type ex struct {
-	refuseAddr string   // target address whose dial is refused (op unreach)
+	fmu        sync.Mutex
+	faults     map[string]string // address -> kind of error its dial fails with (op unreach)
+	taddr      string            // target address of the failed CONNECTs
+	downAddr   string            // address of the downstream proxy (route via)
 	ops        []string // executed so far (for confirmation re-runs)
 	confirm    bool     // this exec is itself a confirmation run
 
@@ -299,6 +337,8 @@ type ex struct {
 	warning   bool
 	opened    bool
 	released  string
+	route     string
+	nUnreach  int
 	openedAt  time.Time     // just before the client connected (handleLoop arms its deadline after Accept)
 	timeout   time.Duration // Proxy.SetTimeout of the proxy under test
 }
@@ -370,12 +410,13 @@ func (e *ex) newProxy(lst, tgt string, down string, timeout time.Duration) (stri
 	if down != "" {
 		p.SetDownstreamProxy(&url.URL{Host: down})
 	}
-	refuse := e.refuseAddr
-	if tgt == "plain" || refuse != "" {
+	{
 		p.SetDial(func(n, a string) (net.Conn, error) {
-			if refuse != "" && a == refuse {
-				// synthesised refusal: a port freed a moment ago may be re-allocated by another process
-				return nil, &net.OpError{Op: "dial", Net: n, Err: syscall.ECONNREFUSED}
+			e.fmu.Lock()
+			kind := e.faults[a]
+			e.fmu.Unlock()
+			if kind != "" {
+				return nil, dialFault(kind, n, a)
 			}
 			c, err := net.DialTimeout(n, a, 5*time.Second)
 			if err != nil {
@@ -481,6 +522,111 @@ func (e *ex) fakeProxy(banner int) (string, bool) {
 		}
 	}()
 	return l.Addr().String(), true
+}
+
+// unreach: a CONNECT whose dial fails. The first one sets the fixture up; further ones go over the
+// same client connection (a failed CONNECT does not end it).
+func (e *ex) unreach(f []string) core.Result {
+	if e.opened || len(f) < 3 || len(f) > 5 {
+		return core.Result{Impl: "bad-op"}
+	}
+	route, lst, kind, where := f[1], f[2], "refused", ""
+	if len(f) >= 4 {
+		kind = f[3]
+	}
+	if len(f) == 5 {
+		where = f[4]
+	}
+	okKind := false
+	for _, k := range dialKinds {
+		okKind = okKind || k == kind
+	}
+	if !okKind || (route != "direct" && route != "via") || (lst != "tcp" && lst != "plain" && lst != "tls") ||
+		(where != "" && where != "near" && !(where == "far" && route == "via")) {
+		return core.Result{Impl: "bad-op"}
+	}
+	if where == "" {
+		where = "near"
+		if route == "via" {
+			where = "far"
+		}
+	}
+	if e.c == nil {
+		// fixture: a target address nobody will ever be dialled at, the proxies, the client connection
+		core.Count("route:" + route)
+		core.Count("lst:" + lst)
+		tl, ok := e.listen()
+		if !ok {
+			return core.Result{Impl: "setup-failed", Fail: "listen failed", Sig: "c04:setup"}
+		}
+		e.taddr = tl.Addr().String()
+		tl.Close()
+		e.timeout = idleTimeout
+		if route == "via" {
+			if e.downAddr, ok = e.newProxy("tcp", "tcp", "", idleTimeout); !ok {
+				return core.Result{Impl: "setup-failed", Fail: "listen failed", Sig: "c04:setup"}
+			}
+		}
+		paddr, ok := e.newProxy(lst, "tcp", e.downAddr, e.timeout)
+		if !ok {
+			return core.Result{Impl: "setup-failed", Fail: "listen failed", Sig: "c04:setup"}
+		}
+		cc, craw, err := dialClient(paddr, lst)
+		if err != nil {
+			return core.Result{Impl: "setup-failed", Fail: "client dial: " + err.Error(), Sig: "c04:setup"}
+		}
+		e.conns = append(e.conns, cc)
+		e.c = &end{recv: newDigest(), sent: newDigest()}
+		e.t = &end{recv: newDigest(), sent: newDigest()}
+		e.c.conn, e.c.raw, e.c.rd = cc, craw, bufio.NewReaderSize(cc, 64<<10)
+		e.route = route
+	} else if e.route != route || e.status != 502 {
+		return core.Result{Impl: "bad-op"}
+	}
+	nth := e.nUnreach
+	e.nUnreach++
+	core.Count("unreach:" + route + ":" + where + ":" + kind)
+	if nth > 0 {
+		core.Count("unreach:on-a-kept-connection")
+	}
+	// which dial fails, and how
+	e.fmu.Lock()
+	e.faults = map[string]string{}
+	if where == "near" && route == "via" {
+		e.faults[e.downAddr] = kind
+	} else {
+		e.faults[e.taddr] = kind
+	}
+	e.fmu.Unlock()
+	msg := []byte("CONNECT " + e.taddr + " HTTP/1.1\r\nHost: " + e.taddr + "\r\n\r\n")
+	e.c.conn.SetWriteDeadline(time.Now().Add(5 * time.Second))
+	what := fmt.Sprintf("CONNECT whose dial fails (%s, %s dial)", kind, where)
+	if nth > 0 {
+		what = fmt.Sprintf("CONNECT no. %d on the connection, whose dial fails (%s, %s dial)", nth+1, kind, where)
+	}
+	if _, err := e.c.conn.Write(msg); err != nil {
+		e.status = 0
+		return core.Result{Impl: "status none", Fail: what + ": the client could not send it: " + err.Error(), Sig: "c04:no-response:" + kind}
+	}
+	st, warn, err := readHead(e.c.conn, e.c.rd)
+	e.status, e.warning = st, warn
+	core.Count("outcome:unreachable")
+	w := "nowarning"
+	if warn {
+		w = "warning"
+	}
+	impl := fmt.Sprintf("status %d %s", st, w)
+	if err != nil {
+		e.status = 0
+		return core.Result{Impl: "status none", Fail: fmt.Sprintf("%s: no response head within %v (%v)", what, bound, err), Sig: "c04:no-response:" + kind}
+	}
+	if st != 502 {
+		return core.Result{Impl: impl, Fail: fmt.Sprintf("%s: answered %d, want exactly 502", what, st), Sig: "c04:no-502:" + kind}
+	}
+	if !warn {
+		return core.Result{Impl: impl, Fail: what + ": the 502 has no Warning header", Sig: "c04:no-warning:" + kind}
+	}
+	return core.Result{Impl: impl}
 }
 
 func (e *ex) obs() string {
@@ -627,34 +773,27 @@ func (e *ex) do(op string) core.Result {
 		return core.Result{Impl: "bad-op"}
 	}
 	switch f[0] {
-	case "open", "unreach":
+	case "unreach":
+		return e.unreach(f)
+
+	case "open":
 		if e.opened || e.status != 0 {
 			return core.Result{Impl: "bad-op"}
 		}
 		var route, lst, tgt string
 		var early, banner, seedC, seedT int
-		unreach := f[0] == "unreach"
-		if unreach {
-			if len(f) != 3 {
-				return core.Result{Impl: "bad-op"}
-			}
-			route, lst, tgt = f[1], f[2], "tcp"
-		} else {
-			if len(f) != 8 && len(f) != 9 {
-				return core.Result{Impl: "bad-op"}
-			}
-			route, lst, tgt = f[1], f[2], f[3]
-			early, banner, seedC, seedT = atoi(f[4]), atoi(f[5]), atoi(f[6]), atoi(f[7])
+		if len(f) != 8 && len(f) != 9 {
+			return core.Result{Impl: "bad-op"}
 		}
+		route, lst, tgt = f[1], f[2], f[3]
+		early, banner, seedC, seedT = atoi(f[4]), atoi(f[5]), atoi(f[6]), atoi(f[7])
 		e.timeout = idleTimeout
 		if len(f) == 9 && atoi(f[8]) >= 500 && atoi(f[8]) <= 30000 {
 			e.timeout = time.Duration(atoi(f[8])) * time.Millisecond
 		}
 		core.Count("route:" + route)
 		core.Count("lst:" + lst)
-		if !unreach {
-			core.Count("kind:" + route + "/" + lst + "/" + tgt)
-		}
+		core.Count("kind:" + route + "/" + lst + "/" + tgt)
 		// target
 		tl, ok := e.listen()
 		if !ok {
@@ -662,18 +801,13 @@ func (e *ex) do(op string) core.Result {
 		}
 		taddr := tl.Addr().String()
 		accepted := make(chan net.Conn, 1)
-		if unreach {
-			tl.Close()
-			e.refuseAddr = taddr
-		} else {
-			go func() {
-				c, err := tl.Accept()
-				if err != nil {
-					return
-				}
-				accepted <- c
-			}()
-		}
+		go func() {
+			c, err := tl.Accept()
+			if err != nil {
+				return
+			}
+			accepted <- c
+		}()
 		e.t = &end{seed: seedT, recv: newDigest(), sent: newDigest()}
 		e.c = &end{seed: seedC, recv: newDigest(), sent: newDigest()}
 		down := ""
@@ -711,7 +845,7 @@ func (e *ex) do(op string) core.Result {
 			return core.Result{Impl: "setup-failed", Fail: "client write: " + err.Error(), Sig: "c04:setup"}
 		}
 		e.c.sent.add(eb)
-		if !unreach {
+		{
 			// the target speaks first: banner
 			select {
 			case tc := <-accepted:
@@ -735,21 +869,6 @@ func (e *ex) do(op string) core.Result {
 		}
 		st, warn, err := readHead(cc, e.c.rd)
 		e.status, e.warning = st, warn
-		if unreach {
-			core.Count("outcome:unreachable")
-			w := "nowarning"
-			if warn {
-				w = "warning"
-			}
-			impl := fmt.Sprintf("status %d %s", st, w)
-			if err != nil {
-				return core.Result{Impl: "status none", Fail: fmt.Sprintf("CONNECT to a closed port: no response head within %v (%v)", bound, err), Sig: "c04:no-502"}
-			}
-			if st != 502 || !warn {
-				return core.Result{Impl: impl, Fail: "CONNECT to a closed port: got " + impl + ", want 502 with a Warning header", Sig: "c04:no-502"}
-			}
-			return core.Result{Impl: impl}
-		}
 		if err != nil || st != 200 {
 			return core.Result{Impl: fmt.Sprintf("status %d", st),
 				Fail: fmt.Sprintf("CONNECT to a listening target: no 200 head within %v (status %d, err %v)", bound, st, err), Sig: "c04:no-200"}
@@ -1275,11 +1394,46 @@ func (P) Gen(r *core.Rand, tier string, emit0 func(ops []string)) {
 	emit := func(ops []string) { mainCases++; emit0(ops) }
 	routes := []string{"direct", "via", "viafake"}
 	lsts := []string{"tcp", "plain", "tls"}
-	// unreachable target on every route/listener
+	// a failed dial on every route/listener: every kind of dial error, at the proxy's own dial and at the
+	// downstream proxy's, several on one connection (it must keep serving)
 	for _, ro := range []string{"direct", "via"} {
 		for _, l := range lsts {
 			emit([]string{"unreach " + ro + " " + l})
+			wheres := []string{"near"}
+			if ro == "via" {
+				wheres = []string{"near", "far"}
+			}
+			for _, w := range wheres {
+				var ops []string
+				perm := make([]int, len(dialKinds))
+				for i := range perm {
+					j := r.Intn(i + 1)
+					perm[i] = perm[j]
+					perm[j] = i
+				}
+				for _, i := range perm {
+					ops = append(ops, fmt.Sprintf("unreach %s %s %s %s", ro, l, dialKinds[i], w))
+				}
+				emit(ops)
+			}
 		}
+	}
+	nU := 12
+	if tier == "thorough" {
+		nU = 150
+	}
+	for i := 0; i < nU; i++ {
+		ro := r.Pick("direct", "via")
+		l := lsts[r.Intn(3)]
+		var ops []string
+		for j, n := 0, r.Range(1, 4); j < n; j++ {
+			w := "near"
+			if ro == "via" && r.Bool() {
+				w = "far"
+			}
+			ops = append(ops, fmt.Sprintf("unreach %s %s %s %s", ro, l, dialKinds[r.Intn(len(dialKinds))], w))
+		}
+		emit(ops)
 	}
 	// every early-data size on every route and listener kind, banner alternating
 	for _, ro := range routes {
